@@ -141,6 +141,9 @@ pub struct Model {
     pub fn_calls: u64,
     /// steps that only skipped the rest of a line after a THEN clause (no statement executed)
     pub skiprest_steps: u64,
+    /// for every Print record ever emitted: the index of the statement that emitted it
+    /// (steps minus rest-of-line skips at that moment)
+    pub print_marks: Vec<u64>,
     in_function: u32,
 }
 
@@ -193,6 +196,7 @@ impl Model {
             implicit_arrays: 0,
             fn_calls: 0,
             skiprest_steps: 0,
+            print_marks: vec![],
             in_function: 0,
         }
     }
@@ -271,6 +275,12 @@ impl Model {
         self.cur_line = Some(line);
         self.stmt_out_start = self.out.len();
         let r = self.step_at(line, idx);
+        let mark = self.steps - self.skiprest_steps;
+        for rec in &self.out[self.stmt_out_start.min(self.out.len())..] {
+            if matches!(rec, Rec::Print(_)) {
+                self.print_marks.push(mark);
+            }
+        }
         match r {
             Ok(()) => {
                 if self.state == MState::Running {
